@@ -361,6 +361,68 @@ example :
       [Spec.bindingTask 0 ⟨100, 1, 1, [5], true, 7, 0⟩, Spec.bindingTask 2 ⟨103, 4, 1, [6], false, 9, 2⟩] := by
   decide
 
+/-- No two live cron registrations send the same crontab string, after any enable/disable history. -/
+theorem firing_nodup (valid : Crontab → Bool) (cfg : Nat → List Binding)
+    (hnd : ∀ h, ((cfg h).map (·.id)).Nodup)
+    (huniq : ∀ h h' b b', b ∈ cfg h → b' ∈ cfg h' → b.id = b'.id → h = h')
+    (ops : List SysOp) : (firing (sysRun valid cfg ops).sm).Nodup := by
+  obtain ⟨⟨r, gr, _⟩, _⟩ := sysGood_run valid cfg hnd huniq ops
+  rw [List.nodup_iff_count]
+  intro c
+  have h := liveCount_of_good valid _ _ gr c
+  have h2 : List.count c (firing (sysRun valid cfg ops).sm) = liveCount (sysRun valid cfg ops).sm c := by
+    simp [liveCount, firing, List.count_eq_length_filter, List.filter_map, Function.comp_def]
+  rw [h2, h]; unfold Spec.wantLive; split <;> omega
+
+/-- **C11.2 (wall clock, any spelling)** Let `sched` be any reading of crontab strings as schedules (the
+cron parser's). At an instant at which schedule `σ` is due every live registration whose string parses to
+`σ` fires. The tasks of that instant are — over the pairwise distinct crontab strings `due` that spell `σ`
+and have an enabled binding, each fired exactly once — a permutation of one task per enabled binding with
+that string: every enabled binding whose crontab means `σ`, however it is spelled, gets exactly one task,
+from the firing of its own spelling. -/
+theorem wallclock_tick_one_task_per_enabled_binding (sched : Crontab → Nat) (valid : Crontab → Bool)
+    (cfg : Nat → List Binding)
+    (hooks : List Nat) (ord : Links → Links) (hord : ∀ l, (ord l).Perm l)
+    (hnd : ∀ h, ((cfg h).map (·.id)).Nodup)
+    (huniq : ∀ h h' b b', b ∈ cfg h → b' ∈ cfg h' → b.id = b'.id → h = h')
+    (hv : ∀ h, ∀ b ∈ cfg h, valid b.crontab = true)
+    (ops : List SysOp) (σ : Nat) :
+    ∃ due : List Crontab, due.Nodup ∧
+      (∀ c, c ∈ due ↔ sched c = σ ∧ ∃ h, Spec.enabledAfter ops h = true ∧ ∃ b ∈ cfg h, b.crontab = c) ∧
+      (wallTickTasks sched ord hooks (sysRun valid cfg ops) σ).Perm
+        (due.flatMap (Spec.wantTasks cfg hooks (Spec.enabledAfter ops))) := by
+  refine ⟨(firing (sysRun valid cfg ops).sm).filter (fun c' => sched c' == σ), ?_, ?_, ?_⟩
+  · exact (firing_nodup valid cfg hnd huniq ops).filter _
+  · intro c
+    have hl := live_iff_enabled_binding valid cfg hnd huniq ops c
+    have hmem : c ∈ firing (sysRun valid cfg ops).sm ↔ liveCount (sysRun valid cfg ops).sm c ≠ 0 := by
+      have h2 : List.count c (firing (sysRun valid cfg ops).sm) = liveCount (sysRun valid cfg ops).sm c := by
+        simp [liveCount, firing, List.count_eq_length_filter, List.filter_map, Function.comp_def]
+      rw [← h2]; exact (List.count_pos_iff.symm).trans (Nat.pos_iff_ne_zero)
+    simp only [List.mem_filter, beq_iff_eq]
+    constructor
+    · rintro ⟨hm, hs⟩
+      refine ⟨hs, ?_⟩
+      apply Classical.byContradiction; intro hno
+      exact (hmem.1 hm) (hl.2 hno)
+    · rintro ⟨hs, hex⟩
+      refine ⟨hmem.2 ?_, hs⟩
+      obtain ⟨h, he, b, hb, rfl⟩ := hex
+      rw [hl.1 (hv h b hb) ⟨h, he, b, hb, rfl⟩]; omega
+  · unfold wallTickTasks
+    exact perm_flatMap_left _ _ _
+      (fun c _ => event_one_task_per_enabled_binding valid cfg hooks ord hord hnd huniq ops c)
+
+/-- Non-vacuity: strings 1 and 3 spell schedule 0, string 2 spells schedule 1. -/
+example :
+    let cfg : Nat → List Binding := fun h =>
+      if h = 0 then [⟨100, 1, 3, [], false, 7, 0⟩, ⟨101, 2, 2, [], true, 8, 0⟩]
+      else if h = 1 then [⟨102, 4, 1, [5], false, 7, 6⟩] else []
+    let s := sysRun (fun _ => true) cfg [.enable 0, .enable 1]
+    wallTickTasks (fun c => if c = 2 then 1 else 0) id [0, 1] s 0 =
+      [Spec.bindingTask 0 ⟨100, 1, 3, [], false, 7, 0⟩, Spec.bindingTask 1 ⟨102, 4, 1, [5], false, 7, 6⟩] := by
+  decide
+
 /-- Witness for the uniqueness hypothesis (ids are generated uuids in the code): with one id shared by
 two hooks on one crontab, disabling one hook silences the other — the hypothesis is needed. -/
 theorem shared_id_witness :
